@@ -37,6 +37,9 @@ TRUSTED = [
     "str.isspace / str.isalnum are tables generated from CPython on every run",
     "bash (the installed 5.2) is the oracle for 'defines the same values and function bodies': the dump is produced by bash itself "
     "(${v@A}, ${v@Q}, printf %q, declare -p, declare -f) and both the unfiltered and the filtered text are sourced in a clean bash",
+    "main_run's observer callbacks (global_envvar_callback, func_callback) are not modelled: every input is filtered twice, bare (the "
+    "daemon's filter-env request passes no callbacks; this output is the one judged by bash and compared with the model) and with both "
+    "callbacks registered (source of the 'statements seen' comparison); any difference between the two outputs is reported",
     "Lean's String.utf8EncodeChar is Python's str.encode('utf-8') on text without surrogates: the bytes the real code writes are "
     "compared with the model's (one encoded window after the other) on every case",
 ]
@@ -50,7 +53,7 @@ RULE = ("environment dumps written by bash itself: 1-8 variables with random val
         "spaces U+00A0/U+2003/U+3000 that bash writes raw and does not split words at, invisible format characters, names and localized messages) each dumped in a random quoting style (${v@A}, name=${v@Q}, printf %q, "
         "declare -p, indexed arrays) and 0-5 functions whose bodies are random compositions of ~45 construct atoms (quoted braces, "
         "parameter expansions, here-documents incl. <<-, <<'' and quoted words, case arms, comments, arithmetic, subshells, command "
-        "substitution, nested functions, [[ =~ ]], process substitution, non-ASCII messages / comments / case patterns / here-document text / function names) inside if/for/while/case/brace-group wrappers, printed by "
+        "substitution, multi-line single/double-quoted text with lines that are exactly } or { (awk/sed programs), nested functions, [[ =~ ]], process substitution, non-ASCII messages / comments / case patterns / here-document text / function names) inside if/for/while/case/brace-group wrappers, printed by "
         "declare -f, plus generated here-documents (<<, <<-, quoted and unquoted words, text lines that end in / contain / start with "
         "the delimiter word — also indented or followed by ; } ) —, unbalanced quotes, braces and parentheses in the text, trailing commands, inside $( )); the names are "
         "drawn from pools in which names share prefixes, suffixes and infixes (CFLAGS / CFLAGS_amd64 / XCFLAGS, T / TT, pkg_setup / "
@@ -195,6 +198,11 @@ BODY_ATOMS = {
     "unicode_dollar": "echo $xé ${x}→ $'\\u00e9}' \"$(echo „})\"",
     "unicode_pe": "echo ${x:-ä} ${x/é/→} ${x#„} ${#x}",
     "unicode_array": "a=(ä '}→' \u3000); echo ${a[@]}",
+    # multi-line quoted text that bash prints verbatim (no indentation): lines that are exactly `}` / `{` / `name () `
+    "sq_multiline_awk": "awk '\nBEGIN { n = 0 }\n/x/ {\n  n++\n}\nEND {\n  print n\n}\n' \"$1\"",
+    "dq_multiline_brace": "echo \"usage:\n}\n{\n$x\"",
+    "sq_multiline_brace": "x='\n}\n'; echo \"it's done\"",
+    "sq_multiline_func": "sed -e '\n}\nf () \n{ \n' f; y=\"\n}\"",
     "eval": "eval 'f() { :; }'",
     "trap": "trap 'echo }' EXIT",
 }
@@ -513,16 +521,16 @@ def _alarm(*a):
     raise Hang()
 
 
-def real_filter(text, vpat, fpat, vwl, fwl):
-    """(status, output text, var names seen, func names seen)"""
+OBSERVER_DIFFS = []     # inputs on which main_run's output depends on whether observer callbacks are registered
+
+
+def _main_run(text, vpat, fpat, vwl, fwl, **callbacks):
     from pkgcore.ebuild import filter_env
     out = io.BytesIO()
-    vseen, fseen = [], []
     old = signal.signal(signal.SIGALRM, _alarm)
     signal.alarm(10)
     try:
-        filter_env.main_run(out, text, vpat, fpat, vwl, fwl, global_envvar_callback=vseen.append,
-                            func_callback=lambda lvl, name, body: fseen.append((lvl, name)))
+        filter_env.main_run(out, text, vpat, fpat, vwl, fwl, **callbacks)
         status = "ok"
     except Hang:
         status = "hang"
@@ -533,7 +541,23 @@ def real_filter(text, vpat, fpat, vwl, fwl):
     finally:
         signal.alarm(0)
         signal.signal(signal.SIGALRM, old)
-    return status, out.getvalue(), vseen, fseen
+    return status, out.getvalue()
+
+
+def real_filter(text, vpat, fpat, vwl, fwl):
+    """(status, written bytes, var names seen, func names seen).
+
+    main_run is called both ways it is called for real: bare, as the daemon's filter-env request does (ebd_ipc.FilterEnv passes no
+    callbacks) — that output is the object under test —, and with the two observer callbacks registered (how the statements seen are
+    obtained).  Callbacks only observe: a different status or output between the two calls is recorded in OBSERVER_DIFFS."""
+    vseen, fseen = [], []
+    status, out_b = _main_run(text, vpat, fpat, vwl, fwl)
+    ostatus, oout = _main_run(text, vpat, fpat, vwl, fwl, global_envvar_callback=vseen.append,
+                              func_callback=lambda lvl, name, body: fseen.append((lvl, name)))
+    if (ostatus, oout) != (status, out_b) and len(OBSERVER_DIFFS) < 50:
+        OBSERVER_DIFFS.append({"text": text, "vpat": vpat, "fpat": fpat, "vwl": vwl, "fwl": fwl,
+                               "bare": [status, out_b.decode("utf-8", "replace")], "observed": [ostatus, oout.decode("utf-8", "replace")]})
+    return status, out_b, vseen, fseen
 
 
 def as_text(out_b):
@@ -638,7 +662,13 @@ _SHARED_V = [("CFLAGS", "Q", "-O2 -pipe"), ("CFLAGS_amd64", "A", "-m64"), ("LDFL
 _SHARED_F = [("pkg_setup", 'echo "setup: ${CFLAGS}"'), ("pkg_setup_hook", "echo 'hook {'"), ("src_compile", 'emake "${@}" || die "make failed"'),
              ("my_src_compile", "src_compile")]
 _USAGE = "cat <<-EOF\n\tUsage: ${PN} [file]\n\tWithout a file the text is read from stdin, finish it with EOF\n\tDon't put quotes around it.\n\tEOF\nreturn 1"
+_AWK = "awk '\nBEGIN { FS = \":\" }\n$3 >= 1000 {\n    print $1\n}\n' /etc/passwd > \"${T}\"/users || die \"awk failed\""
 CORPUS = [
+    # multi-line quoted text in a body is printed verbatim by bash: a line that is only `}` does not end the function
+    _c(vars_=[("SLOT", "A", "0"), ("EXTRA_ECONF", "Q", "--with-x")], funcs=[("src_install", _AWK + "\ndodoc README"), ("pkg_postinst", "elog \"it's done\""),
+                                                                     ("pkg_setup", "x=\"\n}\"\n:")], vpat=["SLOT", "EXTRA_.*"], fpat=["pkg_.*"]),
+    _c(vars_=[("A", "A", "1")], funcs=[("src_install", _AWK), ("pkg_postinst", "echo post")], fpat=["src_install"]),
+    _c(vars_=[("A", "A", "1"), ("B", "A", "2")], funcs=[("f", "x='\n}\n'\necho \"don't\""), ("g", "echo g")], vpat=["B"], fpat=["g"], vwl=True, fwl=True),
     _c(funcs=[("pre", "echo pre"), ("mid", "cat <<''\nfoo\n\n    :"), ("post", "echo post")], fpat=["mid"]),      # used to hang
     _c(vars_=[("A", "A", "x")], funcs=[("f", "echo ${x:-a} '}'"), ("g", "echo g")], fpat=["f"]),
     _c(vars_=[("A", "Q", "it's"), ("B", "q", "a b}c"), ("C", "p", 'x"y$z`w\\'), ("D", "A", "l1\nl2")], vpat=["B", "D"]),
@@ -708,9 +738,15 @@ def run(ctx):
         cases = [dict(c) for c in CORPUS]
         for _ in range(ctx.n(200, 5000)):
             cases.append(gen_case(rng))
+        del OBSERVER_DIFFS[:]
         _run_dumps(ctx, rng, cases, scratch)
         _run_select(ctx, rng)
         _run_raw(ctx, rng, scratch)
+        ctx.extra["inputs_where_output_depends_on_observer_callbacks"] = len(OBSERVER_DIFFS)
+        for d in OBSERVER_DIFFS[:10]:
+            ctx.mismatch({"text": d["text"], "vpat": d["vpat"], "fpat": d["fpat"], "vwl": d["vwl"], "fwl": d["fwl"]},
+                         "main_run writes something else when the observer callbacks are registered than when called bare "
+                         f"(the daemon's call; the bare output is the one judged): bare {d['bare']!r}; observed {d['observed']!r}"[:1500])
     finally:
         shutil.rmtree(scratch, ignore_errors=True)
 
